@@ -161,7 +161,10 @@ date/time, default options); outside it the methods are covered by the
 correspondence streams and oracles only. -/
 def customPrims (recName method : String) (hash : Nat) : Option (List Prim) :=
   if recName = "Addenda98" && method = "CorrectedDataField" && hash = 6782291120014427377 then
-    some [⟨"CorrectedData", 29, .alpha⟩]
+    -- alphaField(CorrectedData, 29), followed by alphaField(iatCorrectedData, 6) when that is non-empty; together with
+    -- the two complementary conditional reserved literals of `String()` (see `condPrims`) this is the same text as
+    -- "29 + 6 + 9 reserved blanks" in both cases, because alphaField("", 6) is six blanks
+    some [⟨"CorrectedData", 29, .alpha⟩, ⟨"iatCorrectedData", 6, .alpha⟩]
   else if recName = "Addenda99" && method = "DateOfDeathField" && hash = 16325907095463990398 then
     some [⟨"DateOfDeath", 6, .date⟩]
   else if recName = "BatchHeader" && method = "EffectiveEntryDateField" && hash = 9170476592973405528 then
@@ -178,12 +181,24 @@ def customPrims (recName method : String) (hash : Nat) : Option (List Prim) :=
     some [⟨"ForeignExchangeReference", 15, .alpha⟩]
   else none
 
+/-- Conditional literal segments that are recognised: `Addenda98.String()` writes a 15-blank reserved field when there
+is no IAT corrected data and a 9-blank one after it otherwise.  Read together with the expansion of
+`CorrectedDataField` above, the first contributes nothing and the second is unconditional. -/
+def condPrims (recName : String) (s : Seg) : Option (List Prim) :=
+  if recName = "Addenda98" && s.kind = "lit" && s.cond = "r.iatCorrectedData == \"\"" && s.lit = "               " then some []
+  else if recName = "Addenda98" && s.kind = "lit" && s.cond = "!(r.iatCorrectedData == \"\")" && s.lit = "         " then
+    some [⟨"", 9, .lit (spaces 9)⟩]
+  else none
+
 def spanOf (pf : ParseFact) (field : String) : Option Span :=
   pf.spans.find? (fun s => s.field = field)
 
 /-- expand one generated render segment into primitive segments -/
 def primsOf (pf : ParseFact) (rf : RenderFact) (s : Seg) : Except String (List Prim) :=
-  if s.cond ≠ "" then .error s!"{rf.recName}: conditional segment {s.field}"
+  if s.cond ≠ "" then
+    match condPrims rf.recName s with
+    | some ps => .ok ps
+    | none => .error s!"{rf.recName}: conditional segment {s.field}"
   else if s.kind = "lit" then .ok [⟨"", s.lit.length, .lit s.lit.toList⟩]
   else if s.kind = "alpha" then .ok [⟨s.field, s.width.toNat, .alpha⟩]
   else if s.kind = "string" then .ok [⟨s.field, s.width.toNat, .str⟩]
@@ -308,8 +323,7 @@ def getN (L : Layout) (vs : List Val) (name : String) : Int :=
   | _ => 0
 
 def inDomain (recName : String) (L : Layout) (vs : List Val) : Bool :=
-  if recName = "Addenda98" then (getS L vs "iatCorrectedData").isEmpty
-  else if recName = "FileHeader" then !(getS L vs "FileCreationDate").isEmpty && !(getS L vs "FileCreationTime").isEmpty
+  if recName = "FileHeader" then !(getS L vs "FileCreationDate").isEmpty && !(getS L vs "FileCreationTime").isEmpty
   else if recName = "IATBatchHeader" then getN L vs "ForeignExchangeReferenceIndicator" ≠ 3 || (getS L vs "ForeignExchangeReference").isEmpty
   else if recName = "BatchHeader" then !(getS L vs "CompanyEntryDescription" = "AUTOENROLL".toList && getS L vs "StandardEntryClassCode" = "ENR".toList)
   else true
